@@ -139,12 +139,16 @@ def check_shape(ctx, fb):
     p = oks[0]
     inp = P(2)
     t = ("bin", "Add", ("len", inp), mk_const("usize", 1))
-    conds = [(a, v) for a, v in p.conds() if a[0] != "ok"]
+    # the two rejections: empty input, and no parameter set for t (the `position` result tested with is_none / is_some / a `let Some`
+    # pattern: any of them), nothing else
     pos = None
-    for a, v in conds:
-        if a[0] == "b" and a[1][0] == "call" and a[1][1].endswith("::is_none"):
+    for a, v in p.conds():
+        if a[0] == "b" and a[1][0] == "call" and re.search(r"::(is_none|is_some)$", a[1][1]) and v is a[1][1].endswith("is_some"):
             pos = a[1][2][0]
-    allowed = lambda a: (a == ("b", ("is_empty", inp))) or (pos is not None and a == ("b", call("std::option::Option::<T>::is_none", pos)))
+        if a[0] == "ok" and v is True and isinstance(a[1], tuple) and a[1][0] == "call" and a[1][1].endswith("::position"):
+            pos = a[1]
+    conds = [(a, v) for a, v in p.conds() if a[0] != "ok" or (a[1] == pos)]
+    allowed = lambda a: (a == ("b", ("is_empty", inp))) or (pos is not None and (a in (("b", call("std::option::Option::<T>::is_none", pos)), ("b", call("std::option::Option::<T>::is_some", pos)), ("ok", pos))))
     extra = [(a, v) for a, v in conds if not allowed(a)]
     if extra or pos is None:
         ctx.fail("R09-4", inst, "branch inventory differs from the specification {inp.is_empty(), no parameters for t}: extra %s" % [
@@ -227,11 +231,16 @@ def check_shape(ctx, fb):
     good = len(sp) == 3
     full_closure = None
     full_kind = "closure"
+    hp = ("bin", "Add", *sorted([half, rpp], key=repr))
     for p in sp:
-        cm = cond_map(p)
-        if set(cm) - {c1, c2}:
+        # the round kind is decided by comparisons of i with RF/2 and RF/2 + RP only, in any spelling (i < h || i >= h + p, or its
+        # De Morgan dual with the arms swapped): full rounds are those with i < h or h + p <= i, partial ones h <= i < h + p
+        cf = cmp_facts(p.conds())
+        if len(cf) != len(p.conds()) or any({x, y} not in ({ii, half}, {ii, hp}) for _, x, y in cf):
             good = False
-        full = cm.get(c1) is True or cm.get(c2) is True
+        full = ("<", ii, half) in cf or ("<=", hp, ii) in cf
+        if not full and not (("<=", half, ii) in cf and ("<", ii, hp) in cf):
+            good = False
         fe = [c for c in p.calls(r"::for_each$")]
         if full:
             # the per-lane body is a closure or a named function handed to for_each
@@ -346,6 +355,20 @@ def check_shape(ctx, fb):
         if good:
             ws = [w for b in backs for w in writes(b)]
             good = len(ws) == 1 and ws[0][1][1] == -4 and ws[0][2] and ws[0][2][0][0] == "idx" and ws[0][3][0] == "phi"
+    if not good and len(ret_paths(mp)) == 1 and len(backs) == 1 and all(not [a for a, v in p.conds() if a[0] != "ok"] for p in mp):
+        # the inner sum spelled as `(0..state.len()).fold(ZERO, |acc, j| acc + row[j] * state[j])`
+        b = backs[0]
+        ws = writes(b)
+        n = ("len", P(2))
+        if len(ws) == 1 and ws[0][1][1] == -4 and ws[0][2] and ws[0][2][0][0] == "idx":
+            i = norm_loopvars(ws[0][2][0][1])
+            ft = fold_term(fb, ws[0][3])
+            if ft is not None and i == ("i", mk_const("usize", 0), n):
+                lo, hi, init, step = ft
+                step = norm_loopvars(step)
+                prod = {("idx", ("idx", P(3), i), ELEM), ("idx", P(2), ELEM)}
+                good = cint(lo) == 0 and hi == n and init == ("item", "ark_ff::AdditiveGroup::ZERO") and isinstance(step, tuple) and step[0] == "fadd" and ACC in step[1:] \
+                    and any(isinstance(x, tuple) and x[0] == "fmul" and set(x[1:]) == prod for x in step[1:])
     ctx.check(good, "R09-4", PH + "mix_2", "state_2[i] = sum_j m[i][j]*state[j] over the full state, no value-dependent branch",
               "linear layer deviates from the dense matrix-vector product state_2[i] = sum_j m[i][j]*state[j], i, j in 0..len(state)", loc(mit))
 
